@@ -311,9 +311,13 @@
 /* copies of (G_P,G_Q) / (G_Q,G_P) of d among the entries such a cursor has passed */
 #define IT_PASSED_PQ(it_, i_) ((bg_size)(i_) == (bg_size)G_P ? C_NQ((it_).p) : (bg_size)0)
 #define IT_PASSED_QP(it_, i_) ((bg_size)(i_) == (bg_size)G_Q ? (it_).p.nP : (bg_size)0)
+/* x counted once, or twice on the diagonal when self-loops count twice */
+#define U_TWICE(x, twice) ((G_P == G_Q && (twice)) ? (x) + (x) : (x))
 /* observed entries of vector<size_t> / matrix results */
 #define V_AT_P(v) ((v).vP)
 #define V_AT_Q(v) (G_P == G_Q ? (v).vP : (v).vQ)
+#define MAT_PQ_(m, F) (G_P == G_Q ? F((m).rowP.vP) : F((m).rowP.vQ))
+#define MAT_QP_(m, F) (G_P == G_Q ? F((m).rowP.vP) : F((m).rowQ.vP))
 #define MAT_PQ(m) (G_P == G_Q ? (m).rowP.vP : (m).rowP.vQ)
 #define MAT_QP(m) (G_P == G_Q ? (m).rowP.vP : (m).rowQ.vP)
 /* copies of (G_P,G_Q) [resp. (G_Q,G_P)] among the positions the edge iterator has passed */
